@@ -30,8 +30,8 @@ FILES = {
     'sfc_models/equation_solver.py': ['C10', 'C11', 'C03', 'C02', 'C15', 'C16', 'C17', 'C19'],
     'sfc_models/models.py': ['C16', 'C10', 'C07', 'C05', 'C01', 'C18', 'C08', 'C11'],
     'sfc_models/sector.py': ['C06', 'C07', 'C04', 'C01', 'C05', 'C08', 'C11'],
-    'sfc_models/sector_definitions.py': ['C07', 'C04', 'C01', 'C09', 'C05', 'C08', 'C18'],
-    'sfc_models/external.py': ['C07', 'C01', 'C18'],
+    'sfc_models/sector_definitions.py': ['C07', 'C04', 'C01', 'C09', 'C05', 'C08', 'C18', 'C10'],
+    'sfc_models/external.py': ['C07', 'C01', 'C18', 'C10', 'C04'],
     'sfc_models/base_solver.py': ['C16', 'C20'],
     'sfc_models/gl_book/chapter3.py': ['C09', 'C18'],
     'sfc_models/gl_book/chapter4.py': ['C09', 'C18'],
@@ -203,8 +203,13 @@ def make_copy(m):
     subprocess.run('git -C /repo archive HEAD | tar -x -C %s' % d, shell=True, check=True)
     p = os.path.join(d, m['file'])
     lines = open(p).read().split('\n')
-    assert lines[m['line'] - 1] == m['old'], (m, lines[m['line'] - 1])
-    lines[m['line'] - 1] = m['new']
+    at = m['line'] - 1
+    if at >= len(lines) or lines[at] != m['old']:
+        # the tree moved on (a later fix commit shifted lines): take the nearest line with the same text
+        near = [j for j in range(max(0, at - 12), min(len(lines), at + 13)) if lines[j] == m['old']]
+        assert near, (m, lines[at] if at < len(lines) else None)
+        at = min(near, key=lambda j: abs(j - at))
+    lines[at] = m['new']
     open(p, 'w').write('\n'.join(lines))
     return d
 
@@ -318,11 +323,29 @@ def report():
     for mid, v in det:
         by[v['detected_by']] = by.get(v['detected_by'], 0) + 1
     lines.append('* detections per check: ' + ', '.join('%s %d' % kv for kv in sorted(by.items())))
-    lines += ['', '## Mutants that survive the suite AND the mapped checks', '', '| id | file:line | operator | old | new | triage |', '|---|---|---|---|---|---|']
     tri = {}
     tp = os.path.join(OUT, 'triage.json')
     if os.path.exists(tp):
         tri = json.load(open(tp))
+    later = [(mid, v) for mid, v in det if 'first_round' in v and not (v['first_round'] or {}).get('detected_by')]
+    lines += ['', 'The first round ran every suite survivor through the quick checks as they stood at /verif commit 3bfa64e. The survivors of that round were',
+              'triaged by hand (mutation/triage.json); where the triage named a gap the check was extended and the mutant re-run',
+              '(`tools/mutate.py recheck <ids>`): %d mutants are detected only since such an extension.' % len(later), '']
+    cat = {}
+    for mid, v in surv:
+        if not v.get('detected_by'):
+            k = tri.get(str(mid), 'UNTRIAGED').split()[0]
+            cat[k] = cat.get(k, 0) + 1
+    lines.append('Triage of the %d mutants that survive both: ' % (len(surv) - len(det)) + ', '.join('%s %d' % kv for kv in sorted(cat.items())) +
+                 ' (EQ = equivalent: no observable behaviour changes; EQ-in-effect = behaviour changes only outside anything a property observes, e.g. a cap reached one sweep earlier;'
+                 ' OOS = behaviour no listed property speaks about: log text, descriptions, diagnostics, calibration constants).')
+    lines += ['', '## Mutants detected only after a check was extended', '', '| id | file:line | operator | new | detected by | what was added |', '|---|---|---|---|---|---|']
+    for mid, v in sorted(later):
+        m = muts[mid]
+        keys = v['checks'][v['detected_by']]['keys']
+        lines.append('| %d | %s:%d | %s | `%s` | %s `%s` | %s |' % (mid, m['file'].replace('sfc_models/', ''), m['line'], m['op'], m['new'].strip()[:60].replace('|', '/'),
+                                                                  v['detected_by'], (keys or [''])[0], tri.get(str(mid), '').replace('GAP-CLOSED ', '')[:140]))
+    lines += ['', '## Mutants that survive the suite AND the mapped checks', '', '| id | file:line | operator | old | new | triage |', '|---|---|---|---|---|---|']
     for mid, v in sorted(surv):
         if v.get('detected_by'):
             continue
